@@ -329,6 +329,33 @@ def check_typed_terminal(run, case):
         session.drop_session(sn); session.drop_session(sn + 'tty')
         repo.drop_rules(name)
 
+def check_interrupt_signal(run, case):
+    """CTRL-C (SIGINT) while the generator is inside a write to a full pipe (a slow cracker on the other end).  Today the run ends there.  Whatever the tool does
+    with the signal - stop, save and stop, carry on - what it has written and still writes is the guess stream from its first byte: a byte prefix of it."""
+    import signal
+    name, path = gstream.materialise(case['spec'], 'c09s')
+    sn = session.new_session_name('c09s')
+    try:
+        U = session.run_main(['-r', name, '-s', sn])
+        ref = ('\n'.join(U.guesses) + '\n').encode('utf-8') if U.guesses else b''
+        for _ in range(2):
+            out, err, rc, to, info = cli.run_cli_blocked('pcfg_guesser.py', ['-r', name, '-s', sn + 'sig'], [], settle=0.5, signal_when_blocked=signal.SIGINT)
+            run.ev('cli_runs'); run.ev('runs_interrupted_by_sigint_inside_a_write')
+            session.drop_session(sn + 'sig')
+            if to or not info['blocked'] or not info.get('signalled'):
+                run.inconc('cli watchdog / generator not blocked'); continue
+            if ref[:len(out)] != out:
+                k = next(i for i, (a, b) in enumerate(zip(out, ref)) if a != b) if any(a != b for a, b in zip(out, ref)) else min(len(out), len(ref))
+                ln = out[:k].count(b'\n') + 1
+                run.violation(f'SIGINT while the generator was blocked in a write: what reached stdout ({len(out)} bytes, {out.count(10)} lines) is not a prefix of the guess stream; '
+                              f'first difference in line {ln}', case, observed={'around': out[max(0, k - 30):k + 30].decode('utf-8', 'replace'), 'stderr_tail': err[-200:].decode('utf-8', 'replace')},
+                              expected=ref[max(0, k - 30):k + 30].decode('utf-8', 'replace')); return
+            run.ev('interrupted_streams_that_are_a_prefix')
+        run.case(h(['sigint', case['spec']['uuid']]))
+    finally:
+        session.drop_session(sn); session.drop_session(sn + 'sig')
+        repo.drop_rules(name)
+
 def markov_heavy_case(rng, tier):
     pm, n = (0.999, 60) if tier == 'quick' else (0.9995, 1200)
     spec = rulesets.gen_spec(rng, with_m=True, labels=['D1', 'A2'], n_base=2, max_len=2, min_groups=1, max_groups=2, max_per_group=3, pool='counts')
@@ -355,6 +382,9 @@ def run(run, rng):
         from . import c12
         run.guard({'spec': c12.huge_spec(rng), 'hseed': 0, 'typed_terminal': True}, check_typed_terminal, seconds=600)
     if run.shard[0] == 3 % run.shard[1]:
+        from . import c12
+        run.guard({'spec': c12.huge_spec(rng), 'hseed': 0, 'sigint': True}, check_interrupt_signal, seconds=600)
+    if run.shard[0] == 3 % run.shard[1]:
         run.ev('legacy_code_page_cases')
         run.guard(legacy_fixed_case(rng), check_case, run.tier, seconds=600)
     if run.shard[0] == 2 % run.shard[1]:
@@ -369,7 +399,9 @@ def run(run, rng):
 
 def replay(run, case):
     c = case['case']
-    if c.get('typed_terminal'):
+    if c.get('sigint'):
+        check_interrupt_signal(run, c)
+    elif c.get('typed_terminal'):
         check_typed_terminal(run, c)
     elif c.get('markov_heavy'):
         check_markov_heavy(run, c)
